@@ -36,6 +36,7 @@ const (
 	c35BatchOwn    = "batch_own"     // POST /1/batch/<ds> on the incoming listener, traces owned by this node
 	c35BatchForeig = "batch_foreign" // same, traces owned by a peer (forwarded through the peer transmission)
 	c35BatchMixed  = "batch_mixed"   // own + foreign + non-trace events
+	c35BatchFresh  = "batch_fresh"   // POST /1/batch/<ds>: many DISTINCT one-span (root) traces with never-seen ids, decided quickly
 	c35Event       = "event"         // POST /1/events/<ds>
 	c35OTLP        = "otlp"          // POST /v1/traces (protobuf or json)
 	c35PeerBatch   = "peer_batch"    // POST /1/batch/<ds> on the PEER listener (msgpack, as a peer would)
@@ -50,7 +51,7 @@ const (
 	c35Stop        = "stop"          // close(done) + startstop.Stop(all objects); at most once, ends the scenario
 )
 
-var c35IngestKinds = map[string]bool{c35BatchOwn: true, c35BatchForeig: true, c35BatchMixed: true, c35Event: true, c35OTLP: true, c35PeerBatch: true}
+var c35IngestKinds = map[string]bool{c35BatchFresh: true, c35BatchOwn: true, c35BatchForeig: true, c35BatchMixed: true, c35Event: true, c35OTLP: true, c35PeerBatch: true}
 var c35DisruptKinds = []string{"reload", c35StressFlip, c35Churn, c35Eject, c35Stop}
 
 func c35DisruptClass(kind string) string {
@@ -80,7 +81,16 @@ type c35Scenario struct {
 	LogLevel   string     `json:"log_level"`    // refinery logger level
 	StressMode string     `json:"stress_mode"`  // initial StressRelief.Mode
 	ReloadMs   int        `json:"reload_ms"`    // General.ConfigReloadInterval (the app's own watcher), 0 = off
-	Actors     []c35Actor `json:"actors"`
+	// DropHeavy: start on a rule set that drops ~98% of the traces; together with
+	// a small DroppedPerWorker the dropped-trace cuckoo filter passes 50% load
+	// (future filter creation) and fills up (filter cycling) within the scenario.
+	DropHeavy bool `json:"drop_heavy,omitempty"`
+	// DroppedPerWorker / KeptPerWorker: SampleCache.DroppedSize / KeptSize per
+	// collector worker at start (0 = the large defaults 20000 / 1000 in total);
+	// config reloads switch between 1x and 2x (dropped) / 1x and 3x (kept).
+	DroppedPerWorker int        `json:"dropped_per_worker,omitempty"`
+	KeptPerWorker    int        `json:"kept_per_worker,omitempty"`
+	Actors           []c35Actor `json:"actors"`
 	// Report is filled in when a scenario is stored as a failing case: the
 	// normalised races it produced (documentation only; ignored on replay).
 	Report []string `json:"report,omitempty"`
@@ -92,14 +102,16 @@ func genC35Op(t *rapid.T, profile int) c35Op {
 	// profile biases the op mix: 0 ingest, 1 admin (reload/stress/churn), 2 reader, 3 mixed
 	var kinds []string
 	switch profile {
+	case 4: // producer of distinct short traces
+		kinds = []string{c35BatchFresh}
 	case 0:
-		kinds = []string{c35BatchOwn, c35BatchOwn, c35BatchForeig, c35BatchForeig, c35BatchMixed, c35BatchMixed, c35Event, c35OTLP, c35OTLP, c35PeerBatch, c35PeerBatch}
+		kinds = []string{c35BatchFresh, c35BatchOwn, c35BatchOwn, c35BatchForeig, c35BatchForeig, c35BatchMixed, c35BatchMixed, c35Event, c35OTLP, c35OTLP, c35PeerBatch, c35PeerBatch}
 	case 1:
 		kinds = []string{c35ReloadCfg, c35ReloadCfg, c35ReloadRules, c35ReloadRules, c35StressFlip, c35StressFlip, c35Churn, c35Churn, c35Eject}
 	case 2:
 		kinds = []string{c35Query, c35Query, c35Alive, c35Metrics, c35Metrics, c35Eject}
 	default:
-		kinds = []string{c35BatchOwn, c35BatchForeig, c35BatchMixed, c35Event, c35OTLP, c35PeerBatch, c35Query, c35Alive,
+		kinds = []string{c35BatchFresh, c35BatchOwn, c35BatchForeig, c35BatchMixed, c35Event, c35OTLP, c35PeerBatch, c35Query, c35Alive,
 			c35ReloadCfg, c35ReloadRules, c35StressFlip, c35Churn, c35Metrics, c35Eject}
 	}
 	op := c35Op{Kind: rapid.SampledFrom(kinds).Draw(t, "kind")}
@@ -127,17 +139,46 @@ func genC35(t *rapid.T) c35Scenario {
 	s.LogLevel = rapid.SampledFrom([]string{"warn", "warn", "info", "debug"}).Draw(t, "loglevel")
 	s.StressMode = rapid.SampledFrom([]string{"never", "monitor", "always"}).Draw(t, "stress")
 	s.ReloadMs = rapid.SampledFrom([]int{0, 150, 400}).Draw(t, "reloadms")
+	// About a third of the scenarios are "drop heavy": tiny dropped/kept caches,
+	// a sampler that drops almost everything and producers of distinct short
+	// traces, so that the sample-cache maintenance paths (future filter
+	// creation at 50% load, filter cycling, LRU eviction, SetNextCapacity/Resize
+	// on reload) run while decisions keep flowing. Every effective reload
+	// restarts the cache's 1 s maintenance ticker, so these scenarios last
+	// longer and only one actor reloads, at most every 1.2 s.
+	s.DropHeavy = rapid.IntRange(0, 2).Draw(t, "dropheavy") == 0
+	if s.DropHeavy {
+		// 128..1024 per worker = 256..2048 filter slots: big enough not to
+		// saturate (>99%, the locked cycling path) within one maintenance tick,
+		// small enough to pass 50% within the first second of traffic
+		s.DroppedPerWorker = rapid.SampledFrom([]int{128, 256, 512, 1024}).Draw(t, "droppedpw")
+		s.KeptPerWorker = rapid.SampledFrom([]int{2, 8, 32}).Draw(t, "keptpw")
+		// more workers = more filters that each go through the nil -> non-nil
+		// future transition once, and more decisions made in parallel
+		s.Workers = rapid.IntRange(4, 8).Draw(t, "workersdh")
+		s.LogLevel = rapid.SampledFrom([]string{"warn", "debug"}).Draw(t, "logleveldh")
+		if vkit.Thorough() {
+			s.DurationMs = rapid.SampledFrom([]int{2500, 3500, 5000}).Draw(t, "durdh")
+		} else {
+			s.DurationMs = rapid.SampledFrom([]int{2500, 3200}).Draw(t, "durdh")
+		}
+	} else if rapid.IntRange(0, 2).Draw(t, "smallcaches") == 0 {
+		s.DroppedPerWorker = rapid.SampledFrom([]int{64, 512, 4096}).Draw(t, "droppedpw")
+		s.KeptPerWorker = rapid.SampledFrom([]int{2, 8, 64}).Draw(t, "keptpw")
+	}
 	n := rapid.IntRange(6, 10).Draw(t, "nactors")
 	// the first actors get fixed profiles so that a scenario is non-trivial by
 	// construction most of the time; the rest are drawn
 	for i := 0; i < n; i++ {
 		var profile int
-		switch i {
-		case 0, 1:
+		switch {
+		case s.DropHeavy && (i == 0 || i == 1 || i == 4 || i == 5):
+			profile = 4
+		case i == 0 || i == 1:
 			profile = 0
-		case 2:
+		case i == 2:
 			profile = 1
-		case 3:
+		case i == 3:
 			profile = 2
 		default:
 			profile = rapid.IntRange(0, 3).Draw(t, "profile")
@@ -148,6 +189,19 @@ func genC35(t *rapid.T) c35Scenario {
 			maxOps = 4 // a Reload costs 0.1-2 s under the race detector
 		}
 		ops := rapid.SliceOfN(rapid.Custom(func(t *rapid.T) c35Op { return genC35Op(t, p) }), 1, maxOps).Draw(t, "ops")
+		if s.DropHeavy {
+			for k := range ops {
+				isReload := ops[k].Kind == c35ReloadCfg || ops[k].Kind == c35ReloadRules || ops[k].Kind == c35StressFlip
+				switch {
+				case isReload && i != 2:
+					ops[k].Kind = c35Churn
+				case isReload:
+					ops[k].ThinkUs = 1200000 + 100000*(ops[k].Arg%4)
+				case ops[k].Kind == c35BatchFresh:
+					ops[k].ThinkUs = 0
+				}
+			}
+		}
 		s.Actors = append(s.Actors, c35Actor{Ops: ops})
 	}
 	// Stop in roughly half of the scenarios: appended to one actor's script with
@@ -298,6 +352,11 @@ type c35ChildSummary struct {
 	Upstream    int            `json:"upstream_events"` // events that reached the fake Honeycomb
 	PeerEvents  int            `json:"peer_events"`     // events that reached a fake peer
 	Finished    bool           `json:"finished"`
+	// highest values of the dropped-trace cuckoo filter gauges seen (sampled
+	// every 50 ms and at exit; the gauges are written by Maintain once a second)
+	MaxCurrentLoad float64 `json:"max_cuckoo_current_load"`
+	MaxFutureLoad  float64 `json:"max_cuckoo_future_load"`
+	KeptEvictable  bool    `json:"kept_evictable"`
 }
 
 type c35RunResult struct {
@@ -485,9 +544,24 @@ func execC35(s c35Scenario) vkit.Result {
 		if rr.summary.ReloadErrs > 0 {
 			res.Class("reload-errors")
 		}
+		if s.DropHeavy {
+			res.Class("drop-heavy")
+		}
+		if s.DroppedPerWorker > 0 {
+			res.Class("small-sample-caches")
+		}
+		if rr.summary.MaxCurrentLoad > 0.5 {
+			res.Class("dropped-filter-crossed-50%")
+		}
+		if rr.summary.MaxCurrentLoad > 0.99 {
+			res.Class("dropped-filter-reached-99%")
+		}
+		if rr.summary.MaxFutureLoad > 0 {
+			res.Class("future-filter-in-use")
+		}
 		res.NonTrivial = rr.summary.Finished && accepted > 0 && len(disrupt) >= 2
 		res.Obs = map[string]any{"executed": rr.summary.Executed, "http": rr.summary.HTTPStatus, "wall_ms": rr.summary.WallMs,
-			"upstream": rr.summary.Upstream, "peer": rr.summary.PeerEvents, "reload_err": rr.summary.ReloadErr, "stop_err": rr.summary.StopErr}
+			"upstream": rr.summary.Upstream, "peer": rr.summary.PeerEvents, "max_cuckoo_current_load": rr.summary.MaxCurrentLoad, "max_cuckoo_future_load": rr.summary.MaxFutureLoad, "reload_err": rr.summary.ReloadErr, "stop_err": rr.summary.StopErr}
 	} else if os.Getenv("VERIF_C35_DEBUG") != "" {
 		fmt.Fprintf(os.Stderr, "child without summary: exit=%q timeout=%v tail:\n%s\n", rr.exitErr, rr.timedOut, rr.tail)
 	}
@@ -500,7 +574,7 @@ func execC35(s c35Scenario) vkit.Result {
 func TestC35(t *testing.T) {
 	vkit.Run(t, vkit.Spec[c35Scenario]{
 		ID:   "C35",
-		Rule: "rapid-generated scenarios: 6-10 concurrently looping actor scripts over {batch/event/OTLP ingest for own and foreign traces, peer-listener ingest, /query/*, /alive,/ready, config+rules file rewrite + Reload, stress mode flip via reload, membership churn via MockPeers.UpdatePeers, metrics reads + Prometheus scrape, VerifEject, Stop} against the full injected app (real fileConfig, routers, collector, StressRelief, DirectTransmissions, ConfigWatcher, LocalPubSub, MultiMetrics+Prometheus) in a -race child process; every race report is normalised to its pair of top refinery frames. Non-trivial: the child finished, >=1 ingest request was accepted and >=2 of {reload, stress flip, churn, eject, stop} were executed. Distinct = distinct scenario JSON.",
+		Rule: "rapid-generated scenarios: 6-10 concurrently looping actor scripts over {batch/event/OTLP ingest for own and foreign traces, bursts of distinct one-span traces, peer-listener ingest, /query/*, /alive,/ready, config+rules file rewrite + Reload, stress mode flip via reload, membership churn via MockPeers.UpdatePeers, metrics reads + Prometheus scrape, VerifEject, Stop} against the full injected app (real fileConfig, routers, collector, StressRelief, DirectTransmissions, ConfigWatcher, LocalPubSub, MultiMetrics+Prometheus) in a -race child process; a third of the scenarios start drop-heavy with tiny SampleCache.DroppedSize/KeptSize so that the cuckoo filter maintenance (future filter at 50% load, cycling, SetNextCapacity/Resize) runs under traffic; every race report is normalised to its pair of top refinery frames. Non-trivial: the child finished, >=1 ingest request was accepted and >=2 of {reload, stress flip, churn, eject, stop} were executed. Distinct = distinct scenario JSON.",
 		Assumptions: []string{
 			"the Go race detector only reports races on interleavings that actually occur; a silent scenario proves little (DESIGN section 6)",
 			"peer.MockPeers (refinery's own test double) stands in for the membership source; fake Honeycomb and fake peers are httptest servers in the child",
